@@ -37,11 +37,15 @@ def seeded():
         mp = os.path.join(V, 'seeded', d, 'meta.json')
         if not os.path.exists(mp):
             continue
-        t = json.load(open(mp)).get('title', '').replace('|', '/')
+        meta = json.load(open(mp))
+        t = meta.get('title', '').replace('|', '/')
         t = re.sub(r'^C\d\d\s*/\s*(seeded )?change \d\s*[:—-]\s*', '', t)
         v = res.get(d, 'not run')
         n[v] = n.get(v, 0) + 1
-        out.append("| %s | %s | %s |" % (d, t[:170], {'no-failing-input': 'obligation'}.get(v, v)))
+        vv = {'no-failing-input': 'obligation'}.get(v, v)
+        if meta.get('note'):
+            vv += ' — ' + meta['note'].replace('|', '/')
+        out.append("| %s | %s | %s |" % (d, t[:170], vv))
     out += ["", "Totals: %d concrete, %d obligation-only, %d missed, of %d." % (n.get('concrete', 0), n.get('no-failing-input', 0), n.get('MISSED', 0), sum(n.values())), ""]
     hist = os.path.join(V, 'docs/SEEDED_HISTORY.md')
     if os.path.exists(hist):
